@@ -97,6 +97,13 @@ class ExcV:
         self.name = name
 
 
+class TypeOf:
+    """result of type(x): only its name is modelled ("ndarray", "tuple", "int", "float", "bool", "NoneType")"""
+
+    def __init__(self, name):
+        self.name = name
+
+
 # complex numbers: scalars are Cplx(re, im) pairs; array ELEMENTS are values of a z3 record sort
 _Cpx = z3.Datatype("Cpx")
 _Cpx.declare("cpx", ("re", R), ("im", R))
@@ -574,7 +581,7 @@ class Engine:
             return FuncV(self.mi.dotted + ":" + nm)
         if nm in self.mi.constants:
             return self.ev(self.mi.constants[nm], State({}, {}, []))
-        if nm in ("int", "float", "abs", "len", "min", "max", "range", "enumerate", "bool", "zip", "round", "complex"):
+        if nm in ("int", "float", "abs", "len", "min", "max", "range", "enumerate", "bool", "zip", "round", "complex", "type", "list", "tuple"):
             return NpV("builtin." + nm)
         if nm in ("UnboundLocalError", "ZeroDivisionError", "ValueError", "IndexError", "Exception"):
             return ExcV(nm)
@@ -825,6 +832,14 @@ class Engine:
         return z3.And([toz(r) for r in res])
 
     def compare(self, op, a, b):
+        if isinstance(op, (ast.Is, ast.IsNot)) and (isinstance(a, TypeOf) or isinstance(b, TypeOf)):
+            ta = a.name if isinstance(a, TypeOf) else getattr(b, "name", None)
+            other = b if isinstance(a, TypeOf) else a
+            oname = other.path.split(".")[-1] if isinstance(other, NpV) else getattr(other, "name", None)
+            if ta is None or oname is None:
+                raise OutsideSubset("type comparison")
+            r = (ta == oname)
+            return r if isinstance(op, ast.Is) else (not r)
         if isinstance(op, (ast.Is, ast.IsNot)):
             if a is None or b is None:
                 r = (a is None) and (b is None)
@@ -884,6 +899,12 @@ class Engine:
                 return base
             if at == "real" or at == "imag":
                 raise OutsideSubset("complex array attribute")
+            key = "%s.%s" % (_nm(node.value), at)
+            attrs = getattr(self.c, "attrs", None) or {}
+            if key in attrs:
+                # assumed fact about an array-like object parameter (trusted; checked at run time by engine C)
+                ent = self.entry if self.entry is not None else st
+                return self.evs(attrs[key], State(dict(ent.env), ent.heap, []))
             return ("method", base, at)
         if isinstance(base, Cplx):
             if at == "real":
@@ -1088,7 +1109,18 @@ class Engine:
             nxt = []
             for st in states:
                 self.cur_line = getattr(s, "lineno", self.cur_line)
-                r = m(s, st)
+                n0 = len(self.obl)
+                try:
+                    r = m(s, st)
+                except OutsideSubset as e:
+                    entry = getattr(self, "entry", None)
+                    if entry is None or len(st.pc) <= len(entry.pc) or self.loop_stack:
+                        raise
+                    # a conditional path (beyond the entry state) the subset cannot express: it must be unreachable
+                    del self.obl[n0:]
+                    self.obl.append(Obligation("unmodelled-path@%s" % getattr(s, "lineno", "?"), list(st.pc), z3.BoolVal(False),
+                                               getattr(s, "lineno", None), "reach", extra={"why": str(e)}))
+                    continue
                 if r is None:
                     continue
                 if isinstance(r, State):
@@ -1306,11 +1338,31 @@ class Engine:
         base_len = len(st.pc)
         s1 = st.copy(); s1.pc.append(c)
         s2 = st.copy(); s2.pc.append(z3.Not(c))
-        r1 = self.exec_block(s.body, s1)
-        r2 = self.exec_block(s.orelse, s2)
+        r1 = self._branch(s.body, s1, s)
+        r2 = self._branch(s.orelse, s2, s)
+        if r1 is None and r2 is None:
+            raise OutsideSubset(self._branch_err)
+        if r1 is None:
+            return r2
+        if r2 is None:
+            return r1
         if len(r1) == 1 and len(r2) == 1:
             return self.merge(c, r1[0], r2[0], base_len)
         return r1 + r2
+
+    def _branch(self, body, st, s):
+        """execute one arm of an `if`; an arm the subset cannot express (e.g. an argument of another rank reaching a callee) is
+        not silently dropped: it becomes the obligation `unmodelled-path@line` = "this arm is unreachable under the
+        precondition".  Proved: the arm cannot run, nothing is lost.  Not proved: the function is reported UNDECIDED."""
+        n0 = len(self.obl)
+        try:
+            return self.exec_block(body, st)
+        except OutsideSubset as e:
+            self._branch_err = str(e)
+            del self.obl[n0:]
+            self.obl.append(Obligation("unmodelled-path@%s" % s.lineno, list(st.pc), z3.BoolVal(False), s.lineno, "reach",
+                                       extra={"why": str(e)}))
+            return None
 
     def merge(self, c, r1: State, r2: State, base_len):
         out = State({}, {}, r1.pc[:base_len])
